@@ -426,6 +426,8 @@ def weave_fn(src, container, name, nth, opts, subs, mode, sig_only=False):
     text, k = rw_underscore_closures(text)
     if k:
         rewrites['R3'] = rewrites.get('R3', 0) + k
+    # R11 only on request: a closure WITHOUT a contract tells Verus nothing about its result, so silently accepting new closures
+    # would turn a harmless rewrite (`x.map(|(_, i)| i)`) into a failed proof, i.e. a false alarm
     if any(kind == 'desugar_closure_patterns' for kind, arg, lines in subs):
         text, k = rw_closure_patterns(text)
         if not k:
@@ -502,6 +504,12 @@ def weave_fn(src, container, name, nth, opts, subs, mode, sig_only=False):
     r7_text = text
 
     stub = (mode == 'stub') or opts.get('status') == 'A'
+    if not stub and not sig_only and bo >= 0:
+        # every verified body: the number of closure-like `|..|` heads is locked.  A closure the proof was not written for has no
+        # contract, Verus then knows nothing about its result, and a harmless rewrite would fail to verify (a false alarm)
+        nheads = len([m for m in re.finditer(r'\|[A-Za-z0-9_,: ]*\|', b.text) if m.start() > bo and b.mask[m.start()]])
+        ntup = len([m for m in re.finditer(r'\|\s*\([^|()]*\)\s*\|', b.text) if m.start() > bo and b.mask[m.start()]])
+        check_anchor('%s|closure-heads' % akey, nheads + ntup)
     spec_lines = []
     attrs = []
     ret = None
